@@ -217,6 +217,15 @@ def run_case(ctx, case):
         ctx.check("returns", False, site="cg", preds=preds, detail={"error": repr(x)})
         return
     ctx.check("returns", True)
+    if case["via"] == "inv" and case["precond"] != "nystrom":
+        # the lazy inverse has no memory: applied again to a refilled buffer it returns what a fresh inverse returns
+        from cola.linalg import CG, inv
+        from harness.reuse import reuse_checks
+        x0m_ = None if x0 is None else np.asarray(x0).reshape(n, -1)
+        bb = b.reshape(n, -1) if case["seed"] % 2 else b
+        b_other = (P.rng_for("c12reuse", case["seed"]).standard_normal(bb.shape) * max(float(np.abs(bb).max()), 1e-300)).astype(bb.dtype)
+        reuse_checks(ctx, lambda: inv(cola.PSD(cola.ops.Dense(M)), CG(tol=case["tol"], max_iters=case["max_iters"], x0=x0m_, P=Pop)), bb, b_other,
+                     "inv(CG)", preds, rel_tol=max(1e-6, 100 * case["tol"]))
     if rec is None:
         ctx.inconclusive.append("loop-state tap saw no CG loop")
         return
